@@ -2025,7 +2025,12 @@ class set_lazy_legacy(_DecoratorContextManager):
     def __exit__(self, exc_type: Any, exc_value: Any, traceback: Any) -> None:
         global _LAZY_OP
         _LAZY_OP = self._old_mode
-        os.environ["LAZY_LEGACY_OP"] = str(_LAZY_OP)
+        if _LAZY_OP is None:
+            # nothing was set before: the variable must go (a sub-process would otherwise
+            # read the string "None", which is no truth value)
+            os.environ.pop("LAZY_LEGACY_OP", None)
+        else:
+            os.environ["LAZY_LEGACY_OP"] = str(_LAZY_OP)
 
 
 def lazy_legacy(allow_none=False):
@@ -2105,7 +2110,10 @@ class set_capture_non_tensor_stack(_DecoratorContextManager):
     def __exit__(self, exc_type: Any, exc_value: Any, traceback: Any) -> None:
         global _CAPTURE_NONTENSOR_STACK
         _CAPTURE_NONTENSOR_STACK = self._old_mode
-        os.environ["CAPTURE_NONTENSOR_STACK"] = str(_CAPTURE_NONTENSOR_STACK)
+        if _CAPTURE_NONTENSOR_STACK is None:
+            os.environ.pop("CAPTURE_NONTENSOR_STACK", None)
+        else:
+            os.environ["CAPTURE_NONTENSOR_STACK"] = str(_CAPTURE_NONTENSOR_STACK)
 
 
 def capture_non_tensor_stack(allow_none=False):
